@@ -74,7 +74,7 @@ class XmlCodec:
             return f'(SF {self.bs(c.brain_structure)} {int(c.surface_number_of_vertices)})'
         if isinstance(c, c2.Cifti2Parcel):
             vs = ' '.join(f'({self.bs(v.brain_structure)} ({" ".join(str(int(i)) for i in v)}))' for v in c.vertices)
-            return f'(PC {self.INT("pname", str(c.name))} {self.vox(c.voxel_indices_ijk)} ({vs}))'
+            return f'(PC {self.INT("name", str(c.name))} {self.vox(c.voxel_indices_ijk)} ({vs}))'
         if isinstance(c, c2.Cifti2Volume):
             t = c.transformation_matrix_voxel_indices_ijk_to_xyz
             if t is None:
@@ -104,6 +104,13 @@ class XmlCodec:
 
     # ---- the expat event stream, attribute values decoded the way Cifti2Parser decodes them
     def attrs(self, name, a):
+        """a missing REQUIRED attribute (the handler's attrs[...] raises KeyError) is the atom N"""
+        try:
+            return self._attrs(name, a)
+        except KeyError:
+            return 'N'
+
+    def _attrs(self, name, a):
         c2 = self.c2
         if name == 'CIFTI':
             return f'(ACifti {int(round(float(a["Version"]) * 10))})'
@@ -119,7 +126,7 @@ class XmlCodec:
         if name == 'Surface':
             return f'(ASurface {self.bs(a["BrainStructure"])} {int(a["SurfaceNumberOfVertices"])})'
         if name == 'Parcel':
-            return f'(AParcel {self.INT("pname", a["Name"])})'
+            return f'(AParcel {self.INT("name", a["Name"])})'
         if name == 'Vertices':
             return f'(AVertices {self.bs(a["BrainStructure"])})'
         if name == 'Volume':
